@@ -83,6 +83,16 @@ FIXED_WITNESSES = [
 ]
 
 
+# recorded, not repaired: (signature, source, data, what the documented semantics give)
+KNOWN_WITNESSES = [
+    # membership in an array uses Python's ==, for which 1 == True and 0 == False, while Liquid's
+    # == (and case/when, where) keeps numbers and booleans apart
+    ("contains-uses-python-equality",
+     "{% if xs contains true %}T{% endif %}{% if true in xs %}T{% endif %}{% if zs contains false %}F{% endif %}|{% if 1 == true %}E{% endif %}",
+     {"xs": [1, 2], "zs": [0]}, "|"),
+]
+
+
 def blank_family() -> list[list[tuple]]:
     """Every block tag as a wrapper around every multi-branch construct whose branches are
     blank or printing in every combination, with conditions that select each branch: the
@@ -241,6 +251,14 @@ def main(chk: C.Check, build: C.Build) -> None:
         if got != ("T", want):
             chk.finding("fixed-witness:" + sig, f"a repaired defect is back: {wsrc!r} gave {got}, the documented semantics give {want!r}",
                         {"source": wsrc, "loader": wld, "data": wdata, "suppress": True, "default_trim": "+", "implementation": got, "expected": want})
+
+    for sig, wsrc, wdata, want in KNOWN_WITNESSES:
+        got = run_impl(wsrc, {}, wdata, True)
+        evaluations += 1
+        if got != ("T", want):
+            chk.finding(sig, f"{wsrc!r} with {wdata!r} gave {got}, the documented semantics give {want!r}: an array that holds 1 'contains' true "
+                             "(membership is Python's ==) although 1 == true is false in Liquid",
+                        {"source": wsrc, "data": wdata, "implementation": got, "expected": want})
 
     # For C01 the Coq interpreter IS the formalised reference semantics (its
     # theorems state the documented laws), so a disagreement is a concrete
